@@ -686,3 +686,32 @@ def ret_variant_blocks(body, adt):
                 if isinstance(k, dict) and k.get('adt') == adt:
                     out.setdefault(k['variant'], []).append((bi, st['assign']['l']))
     return out
+
+
+def reaching_defs(body, local):
+    """Forward reaching definitions of a whole local: {bb: set of def ids reaching the *entry* of bb},
+    def id = (bb, si).  Definitions are whole-local assignments and call destinations."""
+    defs = [(bi, si) for bi, si, k, n in body.defs.get(local, []) if k in ('assign', 'call')]
+    gen = {}
+    for bi, si in defs:
+        cur = gen.get(bi)
+        key = (10 ** 9 if si == 't' else si)
+        if cur is None or key > (10 ** 9 if cur[1] == 't' else cur[1]):
+            gen[bi] = (bi, si)
+    IN = {b: set() for b in range(len(body.blocks))}
+    OUT = {b: set() for b in range(len(body.blocks))}
+    if local <= body.arg_count:
+        IN[0] = {('arg', local)}
+    changed = True
+    order = body.rpo()
+    while changed:
+        changed = False
+        for b in order:
+            i = set(IN[b]) if b == 0 else set()
+            for p in body.pred[b]:
+                i |= OUT[p]
+            o = {gen[b]} if b in gen else set(i)
+            if i != IN[b] or o != OUT[b]:
+                IN[b], OUT[b] = i, o
+                changed = True
+    return IN
